@@ -533,6 +533,32 @@ func (c *gClassifier) classify(base ast.Expr, stack []ast.Node) string {
 	return flow()
 }
 
+// os.Stdout / os.Stderr: WRITING TO the stream (a method call, handing the *os.File to a function) is
+// output, which the host model accounts for as such; only re-pointing the variable (assignment, its
+// address taken) counts as a write of package-level state.
+func classifyStream(base ast.Expr, stack []ast.Node) string {
+	var node ast.Node = base
+	for i := len(stack) - 1; i >= 0; i-- {
+		switch p := stack[i].(type) {
+		case *ast.ParenExpr:
+			node = p
+			continue
+		case *ast.AssignStmt:
+			for _, l := range p.Lhs {
+				if l == node {
+					return "UWrite"
+				}
+			}
+		case *ast.UnaryExpr:
+			if p.Op == token.AND {
+				return "UWrite"
+			}
+		}
+		break
+	}
+	return "URead"
+}
+
 func typeUnder(t types.Type) types.Type {
 	if t == nil {
 		return nil
@@ -639,7 +665,11 @@ func globalsCollect(repo string) (pkgs []*gPkg, vars []gVar, uses []gUse, inits 
 							u.vpkg = v.Pkg().Path()
 							u.ext = true
 						}
-						u.kind = c.classify(base, st)
+						if u.ext && u.vpkg == "os" && (u.vname == "Stdout" || u.vname == "Stderr") {
+							u.kind = classifyStream(base, st)
+						} else {
+							u.kind = c.classify(base, st)
+						}
 						uses = append(uses, u)
 					}
 				}
